@@ -127,6 +127,8 @@ ApplyGauss(s, e) ==
         ELSE IF Len(r.P) # s.n THEN Bad(s, "length", ToString(<<Len(r.P), s.n>>))
         ELSE IF "Is" \in DOMAIN r /\ (Len(r.Is) # Len(s.qs) \/ FirstBad(Len(s.qs), inBad) # 0)
              THEN Bad(s, "harness-input", "I(q) logged by the harness is not the stated mixture")
+        ELSE IF "changed" \in DOMAIN r /\ r.changed
+             THEN Bad(s, "input-array-modified", "apply() changed the I(q) array it was given")
         ELSE IF "P0" \in DOMAIN r /\ ~FVecNear(r.P, r.P0, "1e-12", "0.0")
              THEN Bad(s, "background-forced-zero", ToString(<<"background", a.background, "got", r.P, "background 0", r.P0>>))
         ELSE IF kf # 0 THEN Bad(s, "closed-form-full",
